@@ -154,7 +154,25 @@ void run_md(const MdPlan &pl) {
     for (size_t i = 0; i < std::min<size_t>(pts.size(), 40); ++i) do_contains(pts[rng.below(pts.size())]);
     for (size_t i = 0; i < 60; ++i) do_contains(rnd_pt());
     { Pt<D> lo{}, hi; for (auto &v : hi) v = side - 1; do_contains(lo); do_contains(hi); }
+    // an answer may not depend on the calls made before it: the same point twice, present / absent alternating
+    {
+        Pt<D> hit = pts[rng.below(pts.size())], miss = rnd_pt(), lo{};
+        do_contains(hit); do_contains(hit); do_contains(miss); do_contains(miss); do_contains(hit); do_contains(miss); do_contains(lo); do_contains(lo); do_contains(hit);
+    }
     out.begin("Contains").raw("rows", cs + "]").end();
+    // ... nor on there having been calls at all: each of a few points is the FIRST query of a freshly built, identical container
+    if (pts.size() <= 3000) {
+        Pt<D> lo{}, hi; for (auto &v : hi) v = side - 1;
+        std::vector<Pt<D>> firsts{lo, hi, pts[0], pts.back(), pts[rng.below(pts.size())], rnd_pt()};
+        cs = "["; first = true;
+        std::unique_ptr<M> keep = std::move(m);
+        for (auto &p : firsts) {
+            m.reset(new M(tuples.begin(), tuples.end()));
+            do_contains(p);
+        }
+        m = std::move(keep);
+        out.begin("Contains").raw("rows", cs + "]").str("fresh", "each").end();
+    }
     out.begin("End").end();
 }
 
